@@ -7,6 +7,7 @@
   tree.  The theorems below are about what the other lines mean and which line an error names.
 -/
 import GoFlags.Ini
+import GoFlags.Lemmas.Trim
 
 namespace GoFlags.C14
 open GoFlags Bytes
@@ -305,4 +306,80 @@ theorem noise_line_changes_nothing (file : Bytes) (before after : List Bytes) (n
     cases readIniLine file st (k + 1) l with
     | error e => trivial
     | ok st' => exact ih (k + 1) st'
+
+/-! ### CRLF line ends -/
+
+theorem trimRight_cr (s : Bytes) : trimRight (s ++ [0x0D]) = trimRight s := by
+  unfold trimRight trimRev
+  simp only [List.reverse_append, List.reverse_cons, List.reverse_nil, List.nil_append, List.cons_append,
+    List.length_cons, List.length_reverse]
+  conv => lhs; unfold trimRevFuel
+  simp [trimRevStep, isAsciiSpace]
+
+/-- trimming on the left, with one more ASCII byte behind the string -/
+theorem trimLeft_append_ascii (x : Nat) (hx : x < 0x80) : ∀ (n : Nat) (a : Bytes), a.length ≤ n →
+    trimLeft (a ++ [x]) = if trimLeft a = [] then trimLeft [x] else trimLeft a ++ [x] := by
+  have hxc : isCont x = false := by simp [isCont]; omega
+  intro n
+  induction n with
+  | zero =>
+    intro a hl
+    cases a with
+    | nil => simp [trimLeft_nil]
+    | cons _ _ => simp at hl
+  | succ n ih =>
+    intro a hl
+    cases a with
+    | nil => simp [trimLeft_nil]
+    | cons b t =>
+      rw [show (b :: t) ++ [x] = b :: (t ++ [x]) from rfl, trimLeft_cons]
+      rw [show b :: (t ++ [x]) = (b :: t) ++ x :: [] from rfl, decodeRune_append_noncont (b :: t) x [] (by simp) hxc]
+      rw [trimLeft_cons b t]
+      have hw := decodeRune_width_le (b :: t)
+      have hpos := decodeRune_width_pos (b :: t) (by simp)
+      cases hsp : isSpaceRune (decodeRune (b :: t)).1 with
+      | true =>
+        simp only [if_true]
+        rw [List.drop_append_of_le_length hw]
+        apply ih
+        simp only [List.length_drop, List.length_cons] at hl ⊢
+        omega
+      | false => simp
+
+/-- **A carriage return at the end of a line (CRLF line ends) changes nothing**: the line is read
+    through its trimmed text, and the trimmed text is the same. -/
+theorem trimSpace_cr (l : Bytes) : trimSpace (l ++ [0x0D]) = trimSpace l := by
+  unfold trimSpace
+  rw [trimLeft_append_ascii 0x0D (by decide) l.length l (Nat.le_refl _)]
+  split
+  · next h =>
+    rw [h]
+    have : trimLeft [0x0D] = [] := by
+      rw [trimLeft_cons]; simp [decodeRune, isSpaceRune, trimLeft_nil]
+    rw [this]
+  · exact trimRight_cr _
+
+theorem crlf_line_end_is_irrelevant (file : Bytes) (st : IniFile × Bytes) (n : Nat) (l : Bytes) :
+    readIniLine file st n (l ++ [0x0D]) = readIniLine file st n l :=
+  surrounding_whitespace_irrelevant file st n _ _ (trimSpace_cr l)
+
+/-- … for whole files: every line may or may not end in a carriage return -/
+theorem crlf_file_reads_like_lf_file (file : Bytes) (ls : List (Bytes × Bool)) :
+    ∀ (n : Nat) (st : IniFile × Bytes),
+      readIniLines file (ls.map fun p => if p.2 then p.1 ++ [0x0D] else p.1) n st =
+        readIniLines file (ls.map (·.1)) n st := by
+  induction ls with
+  | nil => intro n st; rfl
+  | cons p ls ih =>
+    intro n st
+    simp only [List.map_cons, readIniLines]
+    have hline : readIniLine file st (n + 1) (if p.2 = true then p.1 ++ [0x0D] else p.1) = readIniLine file st (n + 1) p.1 := by
+      cases p.2
+      · rfl
+      · exact crlf_line_end_is_irrelevant file st (n + 1) p.1
+    rw [hline]
+    cases readIniLine file st (n + 1) p.1 with
+    | error e => rfl
+    | ok st' => exact ih (n + 1) st'
+
 end GoFlags.C14
